@@ -1,27 +1,54 @@
 """C19: Classification assigns the arg-max density class under the learning scaling.
 
-Real learning runs (small 2-d data sets, 2..4 classes, standard and dimension-wise learners) followed by sequences of
-__call__/test_data/evaluate calls.  The densities are read from the real classificators at the scaled samples and fed to
-the extracted Coq model (coq/Model/Classify.v through coq/Entry/C19.v), which recomputes the learning-time scaling, the
-positions, the out-of-range filter, the classes (arg-max), the summaries and the bookkeeping.  Independently, the
-property's own predicates (oracle) are evaluated on the implementation alone."""
+Real learning runs (small 1/2/3-d data sets, 2..4 classes, arbitrary label values, standard and dimension-wise learners,
+a few large cases) followed by histories of __call__/test_data/evaluate/continue_dimension_wise_refinement calls on ONE
+object (fresh data sets, re-used data sets, a second classifier in the same process).  The densities are read from the
+real classificators at the scaled samples and fed to the extracted Coq model (coq/Model/Classify.v + ClassifyLearn.v
+through coq/Entry/C19.v sub 2), which recomputes the learning-time scaling, the ordered learning/testing split, the
+positions, the out-of-range filter, the classes (arg-max + label table), the summaries and the bookkeeping.
+Independently, the property's own predicates (oracle) are evaluated on the implementation alone; the oracle identifies
+the class of a classificator by the samples it was TRAINED on (DensityEstimation.data), not by any label table."""
 import random
 from fractions import Fraction
 from .. import sx
-from ..impl import run_impl
+from ..impl import run_impl, CaseTimeout
 from ..model import run_model
 from . import c18
 
 ASSUMPTIONS = [
     'the learned densities are inputs of the model: read from get_density_estimation_results() at the scaled samples (C16/C17 cover them)',
-    'the learning/testing split (shuffle, move_boundaries_to_front, split_labels/split_pieces) is read off the implementation; '
-    'the model recomputes the scaling, the scaled labelled/omitted samples (compared as multisets), positions, filter, classes, summaries, bookkeeping',
-    'floats as exact rationals; positions compared within 1e-9; calls with a scaled coordinate within 1e-9 of 0.0049/0.9951 are skipped as ambiguous',
+    'the shuffle permutation (replayed from the numpy RNG state) and the iteration orders of the Python sets in move_boundaries_to_front / '
+    'get_labels() (recomputed by the same Python expressions) are inputs of the model, validated by Coq checkers '
+    '(is_perm, same_index_set, label_order_ok); with them the model recomputes the ORDERED learning and testing data',
+    'floats as exact rationals; positions compared within 1e-9; calls with a scaled coordinate within 1e-9 of 0.0049/0.9951 are skipped as ambiguous; '
+    'splits whose size product n*p is within 1e-9 of a half-integer for a non-dyadic p are skipped as ambiguous',
     'exact ties of the maximal density are judged "any maximal class" by the oracle (the model takes the first, as numpy.argmax)',
-    '2-dimensional data only; one_vs_others only with labels 0..k-1',
+    'one_vs_others only with labels 0..k-1 (the code indexes class counts by label); modified_basis=True is excluded (AssertionError "not yet implemented")',
 ]
 
 LO, HI, LO_CUT, HI_CUT = 0.005, 0.995, 0.0049, 0.9951
+
+# label sets whose CPython set iteration order is NOT ascending (or depends on the insertion order), plus large values
+ODD_LABEL_SETS = [[1, 8], [8, 1], [3, 10], [5, 16], [7, 32], [2, 9, 17], [8, 0], [0, 8], [16, 0, 8], [9, 1, 17], [1000, 1], [3, 100],
+                  [2 ** 31, 1], [2 ** 40 + 3, 5, 64], [15, 7, 23, 31], [6, 14, 22, 30], [33, 1, 65, 2], [24, 8, 16], [11, 3]]
+PERCENTAGES = [1.0, 0.5, 0.75, 0.8, 0.8, 0.9, 0.7, 0.625, 0.875, 0.25, 1, 0.0, 1.5]
+
+
+TAMPER_FINDING = 'C19-getters-alias-internal-data'
+
+
+def tamper_enabled():
+    """Histories that call an in-place DataSet method on the object returned by get_testing_data()/get_learning_data() are generated
+    only once the finding about the shallow copies is registered (known or fixed) in known_findings.json - before that they would
+    turn an unchanged tree red."""
+    import json, os
+    if os.environ.get('VERIF_C19_TAMPER'):
+        return True
+    try:
+        root = os.path.dirname(os.path.dirname(os.path.dirname(os.path.dirname(os.path.abspath(__file__)))))
+        return any(f.get('id') == TAMPER_FINDING for f in json.load(open(os.path.join(root, 'known_findings.json'))))
+    except Exception:
+        return False
 
 
 # --------------------------------------------------------------------------------------------- generation
@@ -29,66 +56,119 @@ def lattice(rng, c, spread):
     return c + rng.randrange(-spread, spread + 1) / 16.0
 
 
-def gen_case(rng, tier, idx):
-    k = rng.choice([2, 2, 3, 3, 4])
+def gen_labels(rng, k):
     r = rng.random()
-    labels = list(range(k))
-    if r < 0.12:
-        labels = sorted(rng.sample(range(0, 6), k))           # not 0..k-1
+    if r < 0.36:
+        labels, axis = list(range(k)), 'contiguous'
+    elif r < 0.46:
+        labels = sorted(rng.sample(range(0, 8), k))
         if labels == list(range(k)):
             labels = [l + 1 for l in labels]
+        axis = 'small-noncontiguous'
+    elif r < 0.70:
+        cands = [l for l in ODD_LABEL_SETS if len(l) == k] or [l for l in ODD_LABEL_SETS if len(l) >= k]
+        labels, axis = list(rng.choice(cands))[:k], 'hash-order-pool'
+    elif r < 0.90:
+        labels, axis = rng.sample(range(0, 48), k), 'random<48'
+    else:
+        labels, axis = rng.sample([100, 1000, 65536, 2 ** 31, 2 ** 40 + 3, 12345, 7, 0, 2 ** 62], k), 'large'
+    if axis not in ('hash-order-pool',):
+        rng.shuffle(labels)              # label of centre j = labels[j]; the order of first occurrence in the data is not ascending
+    return labels, axis
+
+
+def gen_points(rng, kind, m, X, lo, hi, dim):
+    P = []
+    for _i in range(m):
+        if kind == 'inside' or (kind == 'partly' and rng.random() < 0.55):
+            a, b = rng.choice(X), rng.choice(X)
+            p = [(u + w) / 2 for u, w in zip(a, b)] if rng.random() < 0.5 else list(a)
+        elif kind == 'edge':
+            a = rng.choice(X)
+            p = [rng.choice([lo[j], hi[j], a[j]]) for j in range(dim)]
+        else:
+            p = [rng.choice([lo[j] - rng.randrange(1, 9) / 4.0, hi[j] + rng.randrange(1, 9) / 4.0] + ([rng.choice(X)[j]] if j == 0 and dim > 1 else []))
+                 for j in range(dim)]
+        P.append(p)
+    return P
+
+
+def gen_case(rng, tier, idx, big=False):
+    dim = 2 if big else rng.choice([1, 2, 2, 2, 2, 3, 3])
+    k = rng.choice([2, 2, 3, 3, 4])
+    labels, label_axis = gen_labels(rng, k)
     centres = []
+    span = 20 if dim == 1 else 8
     while len(centres) < k:
-        c = (rng.randrange(-8, 9) / 4.0, rng.randrange(-8, 9) / 4.0)
-        if all(abs(c[0] - o[0]) + abs(c[1] - o[1]) >= 1.0 for o in centres):
+        c = tuple(rng.randrange(-span, span + 1) / 4.0 for _ in range(dim))
+        if all(sum(abs(a - b) for a, b in zip(c, o)) >= (1.5 if dim == 1 else 1.0) for o in centres):
             centres.append(c)
-    n = rng.randrange(3 * k + 2, 61)
+    n = rng.randrange(250, 420) if big else rng.randrange(3 * k + 2, 61)
     X, y = [], []
     for i in range(n):
         j = i % k if i < 2 * k else rng.randrange(k)
-        X.append([lattice(rng, centres[j][0], 7), lattice(rng, centres[j][1], 7)])
+        X.append([lattice(rng, centres[j][t], 7) for t in range(dim)])
         y.append(labels[j])
     if rng.random() < 0.35:
         for i in rng.sample(range(2 * k, n), min(n - 2 * k, rng.randrange(1, 5))):
             y[i] = -1
-    contiguous = labels == list(range(k))
-    cfg = dict(split_percentage=rng.choice([1.0, 0.5, 0.7, 0.8, 0.8, 0.9]), split_evenly=rng.random() < 0.5, shuffle=rng.random() < 0.5,
-               learner=rng.choice(['std', 'std', 'std', 'dw']), masslumping=rng.random() < 0.7, lambd=rng.choice([0.0, 0.0, 0.01]),
-               levels=rng.choice([(1, 2), (1, 3), (1, 3), (2, 3), (1, 4)]), one_vs_others=contiguous and rng.random() < 0.2,
-               max_evaluations=rng.choice([20, 40, 60]))
+    contiguous = sorted(labels) == list(range(k))
+    learner = 'std' if big else rng.choice(['std', 'std', 'std', 'dw', 'dw'])
+    cfg = dict(split_percentage=rng.choice(PERCENTAGES), split_evenly=rng.random() < 0.5, shuffle=rng.random() < 0.5,
+               learner=learner, masslumping=rng.random() < 0.7, lambd=rng.choice([0.0, 0.0, 0.01]),
+               levels=rng.choice([(1, 2), (1, 3), (1, 3), (2, 3), (1, 4)]) if dim < 3 else rng.choice([(1, 2), (1, 3), (2, 3)]),
+               one_vs_others=contiguous and rng.random() < 0.2, max_evaluations=rng.choice([20, 40, 60]),
+               reuse_old_values=rng.random() < 0.25, pre_scaled_data=rng.random() < 0.2,
+               dw=dict(rebalancing=rng.random() < 0.3, boundary=rng.random() < 0.2, numeric_calculation=False,   # True: a single learning run takes minutes (excluded; it only changes the densities, which are model inputs)
+                      
+                       margin=rng.choice([0.5, 0.5, 0.9]), tolerance=rng.choice([0.01, 0.01, 0.2]), use_relative_surplus=rng.random() < 0.8),
+               decoy_before_learning=rng.random() < 0.08, call_before_learning=rng.random() < 0.1, print_tests=rng.random() < 0.15)
     data_range = None
     r = rng.random()
-    xs = [p[0] for p in X]; ys = [p[1] for p in X]
+    cmin = [min(p[t] for p in X) for t in range(dim)]
+    cmax = [max(p[t] for p in X) for t in range(dim)]
     if r < 0.12:
-        data_range = [[min(xs) - 0.5, min(ys) - 0.25], [max(xs) + 0.5, max(ys) + 1.0]]          # wider than the data
+        data_range = [[cmin[t] - (0.5, 0.25, 1.0)[t] for t in range(dim)], [cmax[t] + (0.5, 1.0, 0.25)[t] for t in range(dim)]]      # wider than the data
     elif r < 0.18:
-        data_range = [[min(xs) + 0.25, min(ys) - 0.25], [max(xs) + 0.5, max(ys) - 0.25]]         # cuts some learning samples off
+        data_range = [[cmin[t] + (0.25, -0.25, 0.0)[t] for t in range(dim)], [cmax[t] + (0.5, -0.25, 0.5)[t] for t in range(dim)]]   # cuts some learning samples off
     elif r < 0.20:
-        data_range = [[min(xs), max(ys)], [max(xs), max(ys)]]                                    # invalid
-    lo = data_range[0] if data_range else [min(xs), min(ys)]
-    hi = data_range[1] if data_range else [max(xs), max(ys)]
+        data_range = [[cmin[0]] + [cmax[t] for t in range(1, dim)], list(cmax)]                                                        # invalid
+    lo = data_range[0] if data_range else cmin
+    hi = data_range[1] if data_range else cmax
     ops = []
-    for _ in range(rng.randrange(1, 7)):
+    nops = rng.randrange(2, 4) if big else rng.randrange(1, 7)
+    for _ in range(nops):
         r = rng.random()
-        if r < 0.22:
+        if big and not ops:
+            r = 0.99                       # the first call of a big case is a __call__/test_data beyond 1024 points
+        if r < 0.18:
             ops.append(['evaluate'])
             continue
-        kind = 'call' if r < 0.55 else 'test'
-        m = rng.randrange(1, 9)
+        if learner == 'dw' and r < 0.30:
+            ops.append(['continue', rng.choice([20, 40, 80])])
+            continue
+        if 0.30 <= r < 0.36 and not big:
+            ops.append(['decoy', rng.randrange(1 << 30)])
+            continue
+        if 0.36 <= r < 0.40:
+            ops.append(['relearn', rng.choice(['std', 'dw'])])
+            continue
+        if 0.40 <= r < 0.45 and tamper_enabled():
+            ops.append(['tamper'])
+            continue
+        kind = 'call' if rng.random() < 0.5 else 'test'
+        prev = [j for j, o in enumerate(ops) if o[0] in ('call', 'test') and o[3] != 'reuse' and o[1]]
+        if prev and rng.random() < 0.12:
+            ops.append([kind, rng.choice(prev), None, 'reuse'])        # the SAME DataSet object as in an earlier call
+            continue
+        m = rng.randrange(1030, 1400) if big and not ops else (rng.randrange(60, 300) if big else rng.randrange(1, 9))
         flavour = rng.choices(['inside', 'partly', 'outside', 'unlabelled', 'empty', 'prescaled', 'edge'], [40, 25, 8, 8, 3, 4, 12])[0]
-        P, L = [], []
-        for _i in range(m):
-            if flavour in ('inside', 'unlabelled', 'prescaled') or (flavour == 'partly' and rng.random() < 0.55):
-                a, b = rng.choice(X), rng.choice(X)
-                p = [(a[0] + b[0]) / 2, (a[1] + b[1]) / 2] if rng.random() < 0.5 else list(a)
-            elif flavour == 'edge':
-                a = rng.choice(X)
-                p = [rng.choice([lo[0], hi[0], a[0]]), rng.choice([lo[1], hi[1], a[1]])]
-            else:
-                p = [rng.choice([lo[0] - rng.randrange(1, 9) / 4.0, hi[0] + rng.randrange(1, 9) / 4.0, rng.choice(X)[0]]),
-                     rng.choice([lo[1] - rng.randrange(1, 9) / 4.0, hi[1] + rng.randrange(1, 9) / 4.0])]
-            P.append(p)
-            j = min(range(k), key=lambda jj: (p[0] - centres[jj][0]) ** 2 + (p[1] - centres[jj][1]) ** 2)
+        if big and flavour in ('empty', 'outside'):
+            flavour = 'partly'
+        P = gen_points(rng, {'unlabelled': 'inside', 'prescaled': 'inside', 'empty': 'inside'}.get(flavour, flavour), m, X, lo, hi, dim)
+        L = []
+        for p in P:
+            j = min(range(k), key=lambda jj: sum((p[t] - centres[jj][t]) ** 2 for t in range(dim)))
             l = labels[j]
             if rng.random() < 0.15:
                 l = rng.choice(labels)
@@ -98,7 +178,8 @@ def gen_case(rng, tier, idx):
         if flavour == 'empty':
             P, L = [], []
         ops.append([kind, P, L, flavour])
-    return dict(seed=rng.randrange(1 << 30), X=X, y=y, labels=labels, cfg=cfg, data_range=data_range, ops=ops, kind='random')
+    return dict(seed=rng.randrange(1 << 30), X=X, y=y, labels=labels, cfg=cfg, data_range=data_range, ops=ops,
+                kind='big' if big else 'random', label_axis=label_axis)
 
 
 # --------------------------------------------------------------------------------------------- implementation side
@@ -123,19 +204,84 @@ def _close(a, b, tol=1e-9):
     return abs(a - b) <= tol * (1.0 + abs(b))
 
 
-def impl_run(case):
+def _silent():
+    from sparseSpACE.Utils import log_levels, print_levels
+    return dict(print_output=False, log_level=log_levels.WARNING, print_level=print_levels.NONE)
+
+
+def _learn(clf, cfg):
+    lv = cfg['levels']
+    if cfg['learner'] == 'dw':
+        clf.perform_classification_dimension_wise(masslumping=cfg['masslumping'], lambd=cfg['lambd'], minimum_level=1, maximum_level=2,
+                                                  max_evaluations=cfg['max_evaluations'], one_vs_others=cfg['one_vs_others'],
+                                                  reuse_old_values=cfg.get('reuse_old_values', False), pre_scaled_data=cfg.get('pre_scaled_data', False),
+                                                  print_metrics=False, **cfg.get('dw', {}))
+    else:
+        clf.perform_classification(masslumping=cfg['masslumping'], lambd=cfg['lambd'], minimum_level=lv[0], maximum_level=lv[1],
+                                   one_vs_others=cfg['one_vs_others'], reuse_old_values=cfg.get('reuse_old_values', False),
+                                   pre_scaled_data=cfg.get('pre_scaled_data', False), print_metrics=False)
+
+
+def _decoy(seed, dim):
+    """A second, unrelated classifier built, trained and used in the same process (other labels, other range): must not disturb ours."""
     import numpy as np
     from sparseSpACE.DEMachineLearning import Classification
-    from sparseSpACE.Utils import log_levels, print_levels
+    rng = random.Random(seed)
+    labs = rng.choice([[4, 2], [0, 1, 2], [9, 1], [2, 0], [5, 3, 12]])
+    X, y = [], []
+    for i in range(6 * len(labs)):
+        j = i % len(labs)
+        X.append([3.0 * j + rng.randrange(0, 17) / 16.0 + 10.0 for _ in range(dim)])
+        y.append(labs[j])
+    st = np.random.get_state()
+    try:
+        c = Classification(_mk(X, y), split_percentage=rng.choice([1.0, 0.75]), split_evenly=True, shuffle_data=False, **_silent())
+        c.perform_classification(masslumping=True, minimum_level=1, maximum_level=2, print_metrics=False)
+        c(_mk(X[:4], y[:4]), print_removed=False)
+        c.test_data(_mk(X[4:8], y[4:8]), print_output=False, print_removed=False)
+    except Exception:
+        pass
+    np.random.set_state(st)
+
+
+def _owner_labels(des, learn_snap, one_vs_others):
+    """label of every classificator, identified by the samples it was trained on (independent of any label table / set order)"""
+    import numpy as np
+    rows_of = {}
+    for r, l in zip(learn_snap[0], learn_snap[1]):
+        rows_of.setdefault(l, []).append(tuple(r))
+    owner = []
+    for de in des:
+        try:
+            data = np.asarray(de.data if not isinstance(de.data, tuple) else de.data[0], dtype=np.float64)
+            if one_vs_others:
+                cl = np.asarray(de.classes, dtype=np.float64).reshape(-1)
+                data = data[cl > 0]
+            key = sorted(tuple(float(v) for v in r) for r in data.reshape(len(data), -1))
+        except Exception:
+            owner.append(None)
+            continue
+        cands = [l for l, rs in rows_of.items() if len(rs) == len(key) and all(all(_close(a, b, 1e-12) for a, b in zip(u, w)) for u, w in zip(sorted(rs), key))]
+        owner.append(cands[0] if len(cands) == 1 else None)
+    if any(o is None for o in owner) or len(set(owner)) != len(owner):
+        return None
+    return owner
+
+
+def impl_run(case):
+    import numpy as np
+    import sklearn.utils
+    from sparseSpACE.DEMachineLearning import Classification
     np.random.seed(case['seed'] % (2 ** 32))
     cfg = case['cfg']
-    out = dict(viol=[], ops=[])
+    dim = len(case['X'][0])
+    out = dict(viol=[], ops=[], dim=dim)
     data = _mk(case['X'], case['y'])
     rg = case.get('data_range')
+    st0 = np.random.get_state()
     try:
         clf = Classification(data, data_range=(np.array(rg[0]), np.array(rg[1])) if rg else None,
-                             split_percentage=cfg['split_percentage'], split_evenly=cfg['split_evenly'], shuffle_data=cfg['shuffle'],
-                             print_output=False, log_level=log_levels.WARNING, print_level=print_levels.NONE)
+                             split_percentage=cfg['split_percentage'], split_evenly=cfg['split_evenly'], shuffle_data=cfg['shuffle'], **_silent())
     except ValueError as e:
         out['init'] = dict(exc=(type(e).__name__, str(e)[:100]))
         return out
@@ -147,43 +293,86 @@ def impl_run(case):
     # oracle: scaling fixed at learning time is the min-max scaling of the labelled samples onto (0.005, 0.995) (or the user range)
     lab = [(x, l) for x, l in zip(case['X'], case['y']) if l >= 0]
     if not rg:
-        for j in range(2):
+        for j in range(dim):
             col = [x[j] for x, _ in lab]
             want_f = 0.99 / (max(col) - min(col)) if max(col) > min(col) else 0.99
             if not _close(mn0[j], min(col)) or not _close(fac0[j], want_f):
                 out['viol'].append(dict(kind='learning-scaling-wrong', sig={}, why='dimension %d: data_range min %r / factor %r, expected %r / %r' % (j, mn0[j], fac0[j], min(col), want_f)))
-    exp_pos = sorted((tuple((x[j] - mn0[j]) * fac0[j] + LO for j in range(2)), l) for x, l in lab)
-    exp_pos = [p for p in exp_pos if all(LO_CUT <= v <= HI_CUT for v in p[0])] if rg else exp_pos
+    spos = [(tuple((x[j] - mn0[j]) * fac0[j] + LO for j in range(dim)), l) for x, l in lab]
+    retained = [i for i, p in enumerate(spos) if all(LO_CUT <= v <= HI_CUT for v in p[0])] if rg else list(range(len(spos)))
+    exp_pos = sorted(spos[i] for i in retained)
     got_pos = sorted([(tuple(r), l) for r, l in zip(out['init']['learn'][0], out['init']['learn'][1])] +
                      [(tuple(r), l) for r, l in zip(out['init']['test'][0], out['init']['test'][1])])
     if len(exp_pos) != len(got_pos) or any(a[1] != b[1] or not all(_close(u, w) for u, w in zip(a[0], b[0])) for a, b in zip(exp_pos, got_pos)):
         out['viol'].append(dict(kind='learning-data-not-scaled-labelled-samples', sig={}, why='learning + testing data are not the labelled samples in the learning scaling'))
+    # inputs of the model's split: shuffle permutation (RNG replay), iteration orders of the Python sets (same expressions as the code)
+    nret = len(retained)
+    split_in = dict(perm=None, idx=[], lo_split=[])
+    try:
+        if cfg['shuffle']:
+            st1 = np.random.get_state()
+            np.random.set_state(st0)
+            split_in['perm'] = [int(v) for v in sklearn.utils.shuffle(np.arange(nret))]
+            np.random.set_state(st1)
+        Xr = np.array([lab[i][0] for i in retained], dtype=np.float64).reshape(nret, dim)
+        yr = np.array([lab[i][1] for i in retained], dtype=np.int64)
+        if split_in['perm'] is not None:
+            Xr, yr = Xr[split_in['perm']], yr[split_in['perm']]
+        order = list(set(np.where(Xr == Xr.min(axis=0))[0]) | set(np.where(Xr == Xr.max(axis=0))[0]))
+        for i, x in enumerate(order):
+            yr[[i, x]] = yr[[x, i]]
+        split_in['idx'] = [int(v) for v in order]
+        split_in['lo_split'] = [int(v) for v in list(set(yr))]
+    except Exception as e:
+        split_in['error'] = '%s: %s' % (type(e).__name__, str(e)[:100])
+    out['split_in'] = split_in
+    out['lo_learn'] = [int(v) for v in learn.get_labels()] if not learn.is_empty() else []
+    out['label_order'] = 'ascending' if out['lo_learn'] == sorted(out['lo_learn']) else 'not-ascending'
+    if cfg.get('decoy_before_learning'):
+        _decoy(case['seed'], dim)
+    if cfg.get('call_before_learning'):
+        # every evaluation method raises before learning and leaves the passed data set alone
+        for what in ('call', 'test', 'evaluate'):
+            dpre = _mk(case['X'][:3], [max(l, 0) for l in case['y'][:3]])
+            before = c18.snap(dpre)
+            try:
+                if what == 'call':
+                    clf(dpre, print_removed=False)
+                elif what == 'test':
+                    clf.test_data(dpre, print_output=False, print_removed=False)
+                else:
+                    clf.evaluate()
+                out['viol'].append(dict(kind='evaluation-before-learning-accepted', sig=dict(call=what), why='%s before perform_classification did not raise' % what))
+            except CaseTimeout:
+                raise
+            except Exception:
+                pass
+            if c18.snap(dpre) != before:
+                out['viol'].append(dict(kind='evaluation-before-learning-modifies-input', sig=dict(call=what), why='%s before perform_classification changed the passed data set' % what))
     # learning
     try:
-        lv = cfg['levels']
-        if cfg['learner'] == 'dw':
-            clf.perform_classification_dimension_wise(masslumping=cfg['masslumping'], lambd=cfg['lambd'], minimum_level=1, maximum_level=2,
-                                                      max_evaluations=cfg['max_evaluations'], one_vs_others=cfg['one_vs_others'], print_metrics=False)
-        else:
-            clf.perform_classification(masslumping=cfg['masslumping'], lambd=cfg['lambd'], minimum_level=lv[0], maximum_level=lv[1],
-                                       one_vs_others=cfg['one_vs_others'], print_metrics=False)
+        _learn(clf, cfg)
+    except CaseTimeout:
+        raise
     except Exception as e:
         out['learn_exc'] = (type(e).__name__, str(e)[:200])
         return out
     out['learn_exc'] = None
-    cls, _ = clf.get_density_estimation_results()
+    cls, des = clf.get_density_estimation_results()
     cls = list(cls)
     out['nclass'] = len(cls)
     if len(cls) < 2:
-        # fewer than two classes left in the learning data (user data range cut them off): outside the property's quantifier
+        # fewer than two classes left in the learning data (user data range / tiny split cut them off): outside the property's quantifier
         out['degenerate'] = True
         out['calc0'] = [int(c) for c in clf.get_calculated_classes_testset()] if len(cls) == 1 else []
         out['dens_test'] = []
-        out['label_of_classificator'] = []
         return out
-    # label of the j-th classificator = label of the j-th piece of learning_data.split_labels() (the call the implementation makes)
+    # label of the j-th classificator: (a) by the samples it was trained on (oracle), (b) j-th piece of learning_data.split_labels()
+    owner = _owner_labels(list(des), out['init']['learn'], cfg['one_vs_others'])
     pieces = clf.get_learning_data().split_labels()
-    lab_of = [int(p.get_data()[1][0]) for p in pieces]
+    lab_split = [int(p.get_data()[1][0]) for p in pieces]
+    out['owner'] = owner
+    lab_of = owner if owner is not None else lab_split
     out['label_of_classificator'] = lab_of
     contiguous = int(lab_of == list(range(len(lab_of))))
     calc = [int(c) for c in clf.get_calculated_classes_testset()]
@@ -191,7 +380,11 @@ def impl_run(case):
     out['dens_test'] = _dens(cls, out['init']['test'][0])
 
     def judge_classes(ent, pts, classes, what):
+        cls = list(clf.get_density_estimation_results()[0])
         d = _dens(cls, pts)
+        if len(classes) != len(pts):
+            ent['viol'].append(dict(kind='class-count-wrong', sig=dict(where=what), why='%s: %d classes for %d samples' % (what, len(classes), len(pts))))
+            return d
         for i, (row, c) in enumerate(zip(d, classes)):
             best = max(row)
             ok_labels = [lab_of[j] for j in range(len(row)) if row[j] == best]
@@ -199,7 +392,7 @@ def impl_run(case):
                 amax = [j for j in range(len(row)) if row[j] == best]
                 kind = 'class-is-index-not-label' if (c in amax and not contiguous) else 'class-not-argmax'
                 ent['viol'].append(dict(kind=kind, sig=dict(contiguous_labels=contiguous, where=what),
-                                        why='%s: sample %d at %r got class %r; densities %r, classificator labels %r' % (what, i, pts[i], c, row, lab_of)))
+                                        why='%s: sample %d at %r got class %r; densities %r, classificators trained on the classes %r' % (what, i, pts[i], c, row, lab_of)))
                 break
         return d
 
@@ -208,10 +401,60 @@ def impl_run(case):
         judge_classes(ent0, out['init']['test'][0], calc, 'testing data at learning time')
     out['viol'] += ent0['viol']
     prev_calc = list(calc)
-    ntest = len(out['init']['test'][0])
-    for op in case['ops']:
+    prev_test = [list(out['init']['test'][0]), list(out['init']['test'][1])]
+    objs = {}
+    for jop, op in enumerate(case['ops']):
         ent = dict(op=op[0], viol=[], exc=None)
         out['ops'].append(ent)
+        if op[0] == 'decoy':
+            _decoy(op[1], dim)
+            ent['calc'] = [int(c) for c in clf.get_calculated_classes_testset()]
+            if ent['calc'] != prev_calc:
+                ent['viol'].append(dict(kind='earlier-classes-changed', sig=dict(call='other-classifier'), why='another Classification object changed our calculated classes'))
+            continue
+        if op[0] == 'relearn':
+            # "This method is only called once": a second learning run must raise and leave everything as it is
+            try:
+                _learn(clf, dict(cfg, learner=op[1]))
+                ent['accepted'] = 1
+            except CaseTimeout:
+                raise
+            except Exception as e:
+                ent['exc'] = (type(e).__name__, str(e)[:100])
+            ent['calc'] = [int(c) for c in clf.get_calculated_classes_testset()]
+            tsn = c18.snap(clf.get_testing_data())
+            if ent.get('accepted'):
+                ent['viol'].append(dict(kind='second-learning-accepted', sig=dict(learner=op[1]), why='perform_classification on an already trained object did not raise'))
+            if ent['calc'] != prev_calc or tsn[0] != prev_test[0] or tsn[1] != prev_test[1]:
+                ent['viol'].append(dict(kind='earlier-classes-changed', sig=dict(call='second perform_classification'), why='a second learning call changed the calculated classes / testing data'))
+            continue
+        if op[0] == 'tamper':
+            # the user inspects the data sets through the public getters and calls an in-place DataSet method on the returned objects
+            try:
+                t = clf.get_testing_data()
+                if not t.is_empty():
+                    t.move_boundaries_to_front()
+                l = clf.get_learning_data()
+                l.move_boundaries_to_front()
+                cc = clf.get_calculated_classes_testset()
+                cc[:] = -7
+            except CaseTimeout:
+                raise
+            except Exception as e:
+                ent['exc'] = (type(e).__name__, str(e)[:100])
+            ent['calc'] = [int(c) for c in clf.get_calculated_classes_testset()]
+            tsn = c18.snap(clf.get_testing_data())
+            lsn = c18.snap(clf.get_learning_data())
+            changed = [nm for nm, a, b in (('get_testing_data', tsn, prev_test), ('get_learning_data', lsn, out['init']['learn'])) if a[0] != b[0] or a[1] != b[1]]
+            if ent['calc'] != prev_calc:
+                changed.append('get_calculated_classes_testset')
+            if changed:
+                ent['viol'].append(dict(kind='getter-aliases-internal-data', sig=dict(getter=changed[0]),
+                                        why='move_boundaries_to_front() on the object returned by %s changed the data held by the Classification object '
+                                            '(the calculated classes no longer belong to the testing samples at the same index)' % ', '.join(changed)))
+                ent['stop'] = 1
+                break
+            continue
         if op[0] == 'evaluate':
             try:
                 ev = clf.evaluate()
@@ -226,16 +469,54 @@ def impl_run(case):
                 if ntest > 0:
                     ent['viol'].append(dict(kind='evaluate-raises-with-testing-data', sig=dict(after_test_data=int(len(prev_calc) != len(out['calc0']))),
                                             why='evaluate() raised %s although the object holds %d testing samples and %d calculated classes' % (ent['exc'], ntest, len(prev_calc))))
+            if cfg.get('print_tests') and ent['exc'] is None:
+                try:
+                    clf.print_evaluation(print_incorrect_points=True)
+                except CaseTimeout:
+                    raise
+                except Exception as e:
+                    ent['viol'].append(dict(kind='print-evaluation-raises', sig=dict(exc=type(e).__name__), why='print_evaluation() raised %s: %s although evaluate() works' % (type(e).__name__, str(e)[:100])))
             ent['calc'] = [int(c) for c in clf.get_calculated_classes_testset()]
+            if ent['calc'] != prev_calc:
+                ent['viol'].append(dict(kind='earlier-classes-changed', sig=dict(call='evaluate'), why='evaluate() changed the calculated classes'))
             continue
-        P, L, flavour = op[1], op[2], op[3]
-        d = _mk(P, L)
-        if flavour == 'prescaled' and P:
-            d.scale_range((LO, HI))
+        if op[0] == 'continue':
+            try:
+                clf.continue_dimension_wise_refinement(tolerance=cfg.get('dw', {}).get('tolerance', 0.01), max_evaluations=cfg['max_evaluations'] + op[1])
+            except CaseTimeout:
+                raise
+            except Exception as e:
+                ent['exc'] = (type(e).__name__, str(e)[:100])
+            ent['calc'] = [int(c) for c in clf.get_calculated_classes_testset()]
+            tsn = c18.snap(clf.get_testing_data())
+            ent['ntest'] = len(tsn[0])
+            if ent['exc'] is None:
+                # the classes of ALL testing data are recomputed from the refined densities
+                ent['dens'] = judge_classes(ent, tsn[0], ent['calc'], 'continue_dimension_wise_refinement') if tsn[0] else []
+                if tsn[0] != prev_test[0] or tsn[1] != prev_test[1]:
+                    ent['viol'].append(dict(kind='testing-data-changed', sig=dict(call='continue'), why='continue_dimension_wise_refinement changed the testing data'))
+            rg_now = clf.get_dataset_range(); fc_now = clf.get_scale_factor()
+            if [float(v) for v in rg_now[0]] != mn0 or [float(v) for v in rg_now[1]] != mx0 or [float(v) for v in fc_now] != fac0:
+                ent['viol'].append(dict(kind='learning-scaling-changed', sig=dict(call=op[0]), why='data range / scale factor changed by a later call'))
+            prev_calc = ent['calc']
+            continue
+        flavour = op[3]
+        if flavour == 'reuse':
+            d = objs.get(op[1])
+            if d is None:
+                ent['skipped'] = 1
+                ent['calc'] = list(prev_calc)
+                continue
+        else:
+            d = _mk(op[1], op[2])
+            if flavour == 'prescaled' and op[1]:
+                d.scale_range((LO, HI))
+        objs[jop] = d
         raw = c18.snap(d)
         ent['raw'] = raw
+        P, L = raw[0], raw[1]
         # expected positions / filter in the scaling fixed at learning time (oracle's own computation)
-        pos = [[(x[j] - mn0[j]) * fac0[j] + LO for j in range(2)] for x in P] if not raw[c18.SC] else [list(x) for x in raw[0]]
+        pos = [[(x[j] - mn0[j]) * fac0[j] + LO for j in range(dim)] for x in P] if not raw[c18.SC] else [list(x) for x in P]
         ent['ambiguous'] = int(any(abs(v - LO_CUT) < 1e-9 or abs(v - HI_CUT) < 1e-9 for p in pos for v in p))
         if raw[c18.SC] and raw[c18.SC + 2] and raw[c18.SC + 2][0] == 1 and len(raw[c18.SC + 2][1]) == len(fac0) and \
                 all(_close(a, b) for a, b in zip(raw[c18.SC + 2][1], fac0)):
@@ -243,23 +524,28 @@ def impl_run(case):
         keep = [i for i, p in enumerate(pos) if all(LO_CUT <= v <= HI_CUT for v in p)]
         res = None
         try:
+            pr = bool(cfg.get('print_tests'))
             if op[0] == 'call':
-                res = clf(d, print_removed=False)
+                res = clf(d, print_removed=pr)
             else:
-                res = clf.test_data(d, print_output=False, print_removed=False)
+                res = clf.test_data(d, print_output=pr, print_removed=pr, print_incorrect_points=pr)
+        except CaseTimeout:
+            raise
         except Exception as e:
             ent['exc'] = (type(e).__name__, str(e)[:100])
         after = c18.snap(d)
         ent['after'] = after
         ent['calc'] = [int(c) for c in clf.get_calculated_classes_testset()]
-        ent['ntest'] = int(clf.get_testing_data().get_length())
+        tsn = c18.snap(clf.get_testing_data())
+        ent['ntest'] = len(tsn[0])
         rg_now = clf.get_dataset_range(); fc_now = clf.get_scale_factor()
         if [float(v) for v in rg_now[0]] != mn0 or [float(v) for v in rg_now[1]] != mx0 or [float(v) for v in fc_now] != fac0:
             ent['viol'].append(dict(kind='learning-scaling-changed', sig=dict(call=op[0]), why='data range / scale factor changed by a later call'))
         if ent['calc'][:len(prev_calc)] != prev_calc:
-            ent['viol'].append(dict(kind='earlier-classes-changed', sig=dict(call=op[0]), why='calculated classes were %r, now %r' % (prev_calc, ent['calc'])))
+            ent['viol'].append(dict(kind='earlier-classes-changed', sig=dict(call=op[0]), why='calculated classes were %r, now %r' % (prev_calc[:40], ent['calc'][:40])))
         if ent['ambiguous']:
             prev_calc = ent['calc']
+            prev_test = [tsn[0], tsn[1]]
             continue
         prescaled_mismatch = bool(raw[c18.SC])
         if ent['exc'] is None:
@@ -269,17 +555,19 @@ def impl_run(case):
                 pass
             elif len(kept_pos) != len(keep) or any(not _close(a, b) for i, r in zip(keep, kept_pos) for a, b in zip(r, pos[i])):
                 ent['viol'].append(dict(kind='scaling-or-filter-wrong', sig=dict(call=op[0]),
-                                        why='retained samples %r, expected the in-range samples %r of the input at %r' % (kept_pos, keep, [pos[i] for i in keep])))
+                                        why='retained samples %r, expected the in-range samples %r of the input at %r' % (kept_pos[:6], keep[:12], [pos[i] for i in keep][:6])))
             elif after[1] != [L[i] for i in keep]:
-                ent['viol'].append(dict(kind='labels-detached', sig=dict(call=op[0]), why='labels of the retained samples %r, expected %r' % (after[1], [L[i] for i in keep])))
+                ent['viol'].append(dict(kind='labels-detached', sig=dict(call=op[0]), why='labels of the retained samples %r, expected %r' % (after[1][:20], [L[i] for i in keep][:20])))
             if op[0] == 'call':
                 rs = c18.snap(res)
                 ent['res_classes'] = [int(c) for c in rs[1]]
                 ent['dens'] = judge_classes(ent, rs[0], ent['res_classes'], '__call__')
                 if rs[0] != kept_pos:
-                    ent['viol'].append(dict(kind='returned-samples-differ', sig={}, why='__call__ returns samples %r, retained %r' % (rs[0], kept_pos)))
+                    ent['viol'].append(dict(kind='returned-samples-differ', sig={}, why='__call__ returns samples %r, retained %r' % (rs[0][:6], kept_pos[:6])))
                 if ent['calc'] != prev_calc:
                     ent['viol'].append(dict(kind='call-changes-bookkeeping', sig={}, why='__call__ changed the calculated classes of the testing data'))
+                if tsn[0] != prev_test[0] or tsn[1] != prev_test[1]:
+                    ent['viol'].append(dict(kind='testing-data-changed', sig=dict(call='__call__'), why='__call__ changed the testing data'))
             else:
                 used = [(r, l) for r, l in zip(after[0], after[1]) if l >= 0]
                 newc = ent['calc'][len(prev_calc):]
@@ -289,30 +577,35 @@ def impl_run(case):
                 wrong = sum(1 for (r, l), c in zip(used, newc) if l != c)
                 if len(newc) != len(used) or ent['res'][0] != wrong or ent['res'][1] != len(used) or not _close(ent['res'][2], 1.0 - wrong / max(len(used), 1)):
                     ent['viol'].append(dict(kind='summary-inconsistent', sig=dict(call='test_data'),
-                                            why='test_data() = %r; %d labelled retained samples, classes %r, labels %r' % (ent['res'], len(used), newc, [l for _, l in used])))
+                                            why='test_data() = %r; %d labelled retained samples, classes %r, labels %r' % (ent['res'], len(used), newc[:30], [l for _, l in used][:30])))
                 if ent['ntest'] != len(ent['calc']):
                     ent['viol'].append(dict(kind='testing-data-not-extended', sig={},
                                             why='after test_data the object holds %d calculated classes but %d testing samples (evaluate() will raise)' % (len(ent['calc']), ent['ntest'])))
+                elif tsn[0] != prev_test[0] + [r for r, _ in used] or tsn[1] != prev_test[1] + [l for _, l in used]:
+                    ent['viol'].append(dict(kind='testing-data-content-wrong', sig={}, why='testing data after test_data are not the earlier testing data followed by the tested labelled in-range samples'))
         else:
             # a raising call: legitimate when nothing (labelled) is left to classify / input empty / scaling mismatch
             legit = (not P) or (not keep) or prescaled_mismatch or (op[0] == 'test' and all(L[i] < 0 for i in keep))
+            pr = int(bool(cfg.get('print_tests')))
             if not legit:
-                ent['viol'].append(dict(kind='call-raises', sig=dict(call=op[0], exc=ent['exc'][0]), why='%s raised %r on %d in-range samples' % (op[0], ent['exc'], len(keep))))
+                ent['viol'].append(dict(kind='call-raises', sig=dict(call=op[0], exc=ent['exc'][0], print_incorrect_points=pr),
+                                        why='%s(print_output=%s, print_incorrect_points=%s) raised %r on %d in-range samples (%d of them unlabelled)' % (
+                                            op[0], bool(pr), bool(pr), ent['exc'], len(keep), sum(1 for i in keep if L[i] < 0))))
+                ent['stop_model'] = 1        # the model cannot follow a call that crashed half-way
             if ent['calc'] != prev_calc:
-                ent['viol'].append(dict(kind='failed-call-changes-bookkeeping', sig=dict(call=op[0]), why='a raising %s changed the calculated classes' % op[0]))
+                ent['viol'].append(dict(kind='failed-call-changes-bookkeeping', sig=dict(call=op[0], print_incorrect_points=pr),
+                                        why='a raising %s changed the calculated classes (%d -> %d)' % (op[0], len(prev_calc), len(ent['calc']))))
         prev_calc = ent['calc']
+        prev_test = [tsn[0], tsn[1]]
     return out
 
 
 def probe_variant(_case):
     """Which of the two proposed repairs (fixes/C19-test-data-store-results, fixes/C19-classificate-returns-labels) are present?"""
-    import numpy as np
     from sparseSpACE.DEMachineLearning import Classification
-    from sparseSpACE.Utils import log_levels, print_levels
     c = CORPUS[1]
     try:
-        clf = Classification(_mk(c['X'], c['y']), split_percentage=0.8, split_evenly=True, shuffle_data=False, print_output=False,
-                             log_level=log_levels.WARNING, print_level=print_levels.NONE)
+        clf = Classification(_mk(c['X'], c['y']), split_percentage=0.8, split_evenly=True, shuffle_data=False, **_silent())
         clf.perform_classification(masslumping=True, minimum_level=1, maximum_level=2, print_metrics=False)
         res = clf(_mk([[0.25, 0.25], [2.0, 1.75]], [1, 3]), print_removed=False)
         labelmap = int(sorted(int(v) for v in res.get_data()[1]) == [1, 3])
@@ -338,14 +631,25 @@ def model_case(case, r, variant):
     rg = case.get('data_range')
     ops = []
     for op, ent in zip(case['ops'], r['ops']):
+        if op[0] in ('decoy', 'relearn', 'tamper') or ent.get('skipped'):
+            continue
         if op[0] == 'evaluate':
             ops.append([3])
+        elif op[0] == 'continue':
+            ops.append([4, ent.get('dens') or []] if ent.get('exc') is None else [3])
         else:
             ops.append([1 if op[0] == 'call' else 2, ent['raw'], ent.get('dens') or []])
     init_ok = r['init']['exc'] is None
-    tl = r['init']['test'][1] if init_ok else []
-    return [variant, [case['X'], case['y']], [[float(v) for v in rg[0]], [float(v) for v in rg[1]]] if rg else [],
-            r.get('label_of_classificator') or [], tl, r.get('dens_test') or [], ops if (init_ok and not r.get('learn_exc')) else []]
+    sp = r.get('split_in') or dict(perm=None, idx=[], lo_split=[])
+    p = case['cfg']['split_percentage']
+    split = [int(isinstance(p, float)), float(p), int(bool(case['cfg']['split_evenly'])), [] if sp['perm'] is None else [sp['perm']], sp['idx'], sp['lo_split']]
+    return [variant, [case['X'], case['y']], [[float(v) for v in rg[0]], [float(v) for v in rg[1]]] if rg else [], split,
+            r.get('lo_learn') or [], r.get('dens_test') or [], ops if (init_ok and not r.get('learn_exc') and not r.get('degenerate')) else []]
+
+
+def model_ops_index(case, r):
+    """indices of the ops that are sent to the model, in order"""
+    return [j for j, (op, ent) in enumerate(zip(case['ops'], r['ops'])) if not (op[0] in ('decoy', 'relearn', 'tamper') or ent.get('skipped'))]
 
 
 def msorted(s):
@@ -361,34 +665,123 @@ def close_q(a, b):
     return abs(a - b) <= c18.TOL * (1 + abs(b))
 
 
+def split_ambiguous(case, r):
+    """the float product n * percentage lies (within 1e-9) on a half-integer although the percentage is not dyadic: Python's round()
+    of the float product and the exact rounding of the model may then differ"""
+    p = case['cfg']['split_percentage']
+    if not (isinstance(p, float) and 0 < p < 1):
+        return False
+    if Fraction(p).denominator <= 1024:
+        return False
+    labs = r['init']['learn'][1] + r['init']['test'][1]
+    sizes = [labs.count(l) for l in set(labs)] if case['cfg']['split_evenly'] else [len(labs)]
+    return any(abs((n * p) % 1.0 - 0.5) < 1e-9 for n in sizes)
+
+
+_X10 = [[0.0, 0.0], [0.25, 0.5], [0.5, 0.25], [0.125, 0.125], [0.375, 0.25], [2.0, 2.0], [2.25, 1.5], [1.75, 2.5], [2.5, 2.25], [1.5, 1.75]]
+_CFG = dict(split_percentage=0.8, split_evenly=True, shuffle=False, learner='std', masslumping=True, lambd=0.0, levels=(1, 3), one_vs_others=False, max_evaluations=20)
+
+
+def _two(la, lb):
+    return [la] * 5 + [lb] * 5
+
+
 CORPUS = [
     # exemplars of the known findings first
-    dict(seed=1, kind='corpus', name='evaluate-after-test-data', labels=[0, 1],
-         X=[[0.0, 0.0], [0.25, 0.5], [0.5, 0.25], [0.125, 0.125], [0.375, 0.25], [2.0, 2.0], [2.25, 1.5], [1.75, 2.5], [2.5, 2.25], [1.5, 1.75]],
-         y=[0, 0, 0, 0, 0, 1, 1, 1, 1, 1], data_range=None,
-         cfg=dict(split_percentage=0.8, split_evenly=True, shuffle=False, learner='std', masslumping=True, lambd=0.0, levels=(1, 3), one_vs_others=False, max_evaluations=20),
+    dict(seed=1, kind='corpus', name='evaluate-after-test-data', labels=[0, 1], X=_X10, y=_two(0, 1), data_range=None, cfg=dict(_CFG),
          ops=[['evaluate'], ['test', [[0.25, 0.25], [2.0, 1.75]], [0, 1], 'inside'], ['evaluate']]),
-    dict(seed=2, kind='corpus', name='labels-not-contiguous', labels=[1, 3],
-         X=[[0.0, 0.0], [0.25, 0.5], [0.5, 0.25], [0.125, 0.125], [0.375, 0.25], [2.0, 2.0], [2.25, 1.5], [1.75, 2.5], [2.5, 2.25], [1.5, 1.75]],
-         y=[1, 1, 1, 1, 1, 3, 3, 3, 3, 3], data_range=None,
-         cfg=dict(split_percentage=0.8, split_evenly=True, shuffle=False, learner='std', masslumping=True, lambd=0.0, levels=(1, 3), one_vs_others=False, max_evaluations=20),
+    dict(seed=2, kind='corpus', name='labels-not-contiguous', labels=[1, 3], X=_X10, y=_two(1, 3), data_range=None, cfg=dict(_CFG),
          ops=[['call', [[0.25, 0.25], [2.0, 1.75]], [1, 3], 'inside'], ['evaluate']]),
     # the flow of test/test_DEMachineLearning.py::test_classification in small
-    dict(seed=3, kind='corpus', name='suite-flow', labels=[0, 1],
-         X=[[0.0, 0.0], [0.25, 0.5], [0.5, 0.25], [0.125, 0.125], [0.375, 0.25], [2.0, 2.0], [2.25, 1.5], [1.75, 2.5], [2.5, 2.25], [1.5, 1.75]],
-         y=[0, 0, 0, 0, -1, 1, 1, 1, 1, 1], data_range=None,
-         cfg=dict(split_percentage=0.8, split_evenly=True, shuffle=False, learner='std', masslumping=True, lambd=0.0, levels=(1, 3), one_vs_others=False, max_evaluations=20),
+    dict(seed=3, kind='corpus', name='suite-flow', labels=[0, 1], X=_X10, y=[0, 0, 0, 0, -1, 1, 1, 1, 1, 1], data_range=None, cfg=dict(_CFG),
          ops=[['evaluate'], ['call', [[0.25, 0.25], [2.0, 1.75], [9.0, 0.0], [0.0, 2.5]], [0, 1, 1, -1], 'partly'],
               ['test', [[0.25, 0.25], [2.0, 1.75], [-4.0, 0.0], [2.5, 0.0]], [1, 1, 0, -1], 'partly'],
               ['test', [[9.0, 9.0]], [0], 'outside'], ['test', [[0.25, 0.25]], [-1], 'unlabelled'], ['call', [], [], 'empty']]),
+    # label VALUES whose CPython set iteration order is not ascending ({1,8} iterates 8,1; {8,0} with 8 first iterates 8,0): the
+    # classificators follow get_labels() of the learning data, the label table must follow the same order
+    dict(seed=4, kind='corpus', name='labels-set-order-1-8', labels=[1, 8], X=_X10, y=_two(1, 8), data_range=None, cfg=dict(_CFG),
+         ops=[['call', [[0.25, 0.25], [2.0, 1.75]], [1, 8], 'inside'], ['test', [[0.125, 0.25], [2.25, 2.0], [2.0, 2.0]], [1, 8, 1], 'inside'], ['evaluate']]),
+    dict(seed=5, kind='corpus', name='labels-set-order-8-0-dw', labels=[8, 0], X=_X10, y=_two(8, 0), data_range=None,
+         cfg=dict(_CFG, learner='dw', split_evenly=False, split_percentage=1.0),
+         ops=[['call', [[0.25, 0.25], [2.0, 1.75]], [8, 0], 'inside'], ['continue', 40], ['test', [[0.125, 0.25], [2.25, 2.0]], [8, 0], 'inside'], ['evaluate']]),
+    dict(seed=6, kind='corpus', name='labels-set-order-2-9-17', labels=[2, 9, 17],
+         X=_X10 + [[4.0, 0.0], [4.25, 0.5], [4.5, 0.25], [4.125, 0.125], [4.375, 0.25]], y=_two(2, 9) + [17] * 5, data_range=None,
+         cfg=dict(_CFG, split_percentage=0.75, shuffle=True),
+         ops=[['evaluate'], ['call', [[0.25, 0.25], [2.0, 1.75], [4.25, 0.25]], [2, 9, 17], 'inside'], ['call', 1, None, 'reuse'], ['evaluate']]),
 ]
+
+
+def _viol_sigs(r):
+    """(step, kind) of every oracle violation of one implementation run"""
+    if not isinstance(r, dict):
+        return set()
+    out = set((-1, v['kind']) for v in r.get('viol', []))
+    for j, ent in enumerate(r.get('ops', [])):
+        out |= set((j, v['kind']) for v in ent['viol'])
+    return out
+
+
+def confirm_in_fresh_processes(chk, cases, impl, max_confirm=24):
+    """The worker processes of the first pass run many cases each, so state shared between Classification objects (class-level
+    caches ...) can leak from one case into the next.  Every case with an oracle violation is therefore re-run alone in a fresh
+    process: the re-run result replaces the first one (so that every reported failing input replays), and violations that do
+    not reproduce alone are reported separately as state leaks (no replayable input; the 'decoy' histories are the replayable
+    form of the same defect)."""
+    from concurrent.futures import ThreadPoolExecutor
+    bad = [i for i, (st, r) in enumerate(impl) if st == 'ok' and _viol_sigs(r)]
+    seen, pick = set(), []
+    for i in bad:                       # one representative per violation kind first, then the rest up to the bound
+        ks = frozenset(k for _, k in _viol_sigs(impl[i][1]))
+        if ks not in seen:
+            seen.add(ks); pick.append(i)
+    pick += [i for i in bad if i not in pick]
+    pick = pick[:max_confirm]
+    if not pick:
+        return impl, []
+    with ThreadPoolExecutor(8) as ex:
+        fresh = list(ex.map(lambda i: run_impl(impl_run, [cases[i]], nproc=1, limit=600)[0], pick))
+    impl = list(impl)
+    leaks = []
+    for i, (st2, r2) in zip(pick, fresh):
+        first = _viol_sigs(impl[i][1])
+        again = _viol_sigs(r2) if st2 == 'ok' else set()
+        lost = sorted(first - again)
+        if lost:
+            leaks.append((i, lost))
+        if st2 == 'ok':
+            impl[i] = (st2, r2)
+    chk.extra['violations_confirmed_in_fresh_process'] = dict(cases_rerun=len(pick), cases_with_violations=len(bad),
+                                                              not_reproduced_alone=len(leaks))
+    # cases beyond the bound keep their first-pass result; say so
+    return impl, leaks
+
+
+# exemplar of the finding about test_data(print_output=True, print_incorrect_points=True) with classless samples in the tested data
+PRINT_CASE = dict(seed=8, kind='corpus', name='test-data-print-incorrect-points', labels=[0, 1], X=_X10, y=_two(0, 1), data_range=None,
+                  cfg=dict(_CFG, split_percentage=1.0, print_tests=True),
+                  ops=[['test', [[0.25, 0.25], [2.0, 1.75], [0.125, 0.25]], [-1, 1, 1], 'inside'], ['evaluate']])
+CORPUS.append(PRINT_CASE)
+
+# exemplar of the finding about the shallow copies handed out by the getters (runs only once the finding is registered, see tamper_enabled)
+TAMPER_CASE = dict(seed=7, kind='corpus', name='getter-copy-aliases-testing-data', labels=[0, 1], X=_X10, y=_two(0, 1), data_range=None,
+                   cfg=dict(_CFG, split_percentage=0.6), ops=[['evaluate'], ['tamper'], ['evaluate']])
 
 
 def run(chk):
     chk.coq_obligations()
-    n = chk.n(120, 2500)
-    cases = [dict(c) for c in CORPUS] + [gen_case(chk.rng, chk.tier, i) for i in range(n)]
-    impl = run_impl(impl_run, cases, limit=300)
+    n = chk.n(200, 3000)
+    nbig = chk.n(6, 40)
+    chk.count('getter-tamper-histories=' + ('on' if tamper_enabled() else 'off (finding %s not registered)' % TAMPER_FINDING))
+    cases = [dict(c) for c in CORPUS] + ([dict(TAMPER_CASE)] if tamper_enabled() else []) + \
+            [gen_case(chk.rng, chk.tier, i, big=True) for i in range(nbig)] + [gen_case(chk.rng, chk.tier, i) for i in range(n)]
+    impl = run_impl(impl_run, cases, limit=600)
+    impl, leaks = confirm_in_fresh_processes(chk, cases, impl)
+    for i, lost in leaks:
+        c = cases[i]
+        chk.violation('oracle:state-shared-between-objects', 'state-shared-between-objects', {'kinds': sorted(set(k for _, k in lost))},
+                      {k: c[k] for k in ('seed', 'kind', 'X', 'y', 'labels', 'cfg', 'data_range', 'ops')},
+                      dict(why='property predicates %r failed for this case when it ran after other cases in the same process, but hold when it runs alone in a '
+                               'fresh process: state is shared between Classification objects / across calls in one process' % (lost,)), failing_input=False)
     judge(chk, cases, impl, c18.get_variant(chk) + get_cvariant(chk))
 
 
@@ -396,7 +789,7 @@ def judge(chk, cases, impl, variant):
     batch, where = [], []
     for i, (c, (st, r)) in enumerate(zip(cases, impl)):
         if st == 'ok':
-            batch.append((0, model_case(c, r, variant)))
+            batch.append((2, model_case(c, r, variant)))
             where.append(i)
     mres = dict(zip(where, run_model(19, batch)))
     keys, samples = [], []
@@ -406,13 +799,31 @@ def judge(chk, cases, impl, variant):
         if st != 'ok':
             chk.violation('corr:C19/run', 'harness-or-impl-failure', {'status': st}, dict(base, ops=c['ops']), dict(impl=str(r)[:600]), failing_input=False)
             continue
-        chk.count('learner=%s' % c['cfg']['learner']); chk.count('classes=%d' % len(c['labels']))
-        chk.count('split=%s/%s' % (c['cfg']['split_percentage'], 'even' if c['cfg']['split_evenly'] else 'uneven'))
+        cfg = c['cfg']
+        chk.count('dim=%d' % r['dim']); chk.count('learner=%s' % cfg['learner']); chk.count('classes=%d' % len(c['labels']))
+        chk.count('labels=%s' % c.get('label_axis', 'corpus'))
+        chk.count('split=%r/%s' % (cfg['split_percentage'], 'even' if cfg['split_evenly'] else 'uneven'))
+        chk.count('shuffle=%d' % int(bool(cfg['shuffle'])))
         chk.count('data_range=' + ('given' if c.get('data_range') else 'none'))
+        chk.count('samples=%s' % ('<=20' if len(c['X']) <= 20 else '<=60' if len(c['X']) <= 60 else '>=250'))
+        for flag in ('one_vs_others', 'reuse_old_values', 'pre_scaled_data', 'masslumping', 'decoy_before_learning', 'call_before_learning', 'print_tests'):
+            if cfg.get(flag):
+                chk.count('option:%s' % flag)
+        chk.count('option:lambd=%r' % cfg['lambd'])
+        if cfg['learner'] == 'dw':
+            for k_, v_ in sorted(cfg.get('dw', {}).items()):
+                if v_ not in (False, 0.5, 0.01) or k_ == 'use_relative_surplus':
+                    chk.count('option:dw/%s=%r' % (k_, v_))
+        else:
+            chk.count('option:levels=%r' % (tuple(cfg['levels']),))
         for v in r['viol']:
             chk.violation('oracle:' + v['kind'], v['kind'], v['sig'], dict(base, ops=[]), dict(step='learning', why=v['why']))
         for j, ent in enumerate(r['ops']):
-            chk.count('op=%s' % ent['op'] + ('' if ent['op'] == 'evaluate' else '/' + c['ops'][j][3]))
+            o = c['ops'][j]
+            chk.count('op=%s' % ent['op'] + ('/' + o[3] if ent['op'] in ('call', 'test') else ''))
+            if ent['op'] in ('call', 'test') and ent.get('raw'):
+                nn = len(ent['raw'][0])
+                chk.count('call-size=%s' % ('0' if nn == 0 else '1-8' if nn <= 8 else '9-300' if nn <= 300 else '>1000' if nn > 1000 else '301-1000'))
             if ent.get('exc'):
                 chk.count('raised:%s/%s' % (ent['op'], ent['exc'][0]))
             for v in ent['viol']:
@@ -452,37 +863,67 @@ def judge(chk, cases, impl, variant):
         if bad:
             differ('init', dict(observable=bad[0], impl=bad[1], model=bad[2]), upto=-1)
             continue
-        if r.get('degenerate'):
-            chk.count('fewer-than-2-classes-learned')
+        # ---- the ordered split into learning and testing data
+        chk.count('label-order=' + r.get('label_order', '?'))
+        if split_ambiguous(c, r):
+            chk.count('ambiguous:split-rounding')
+            continue
+        if len(m) < 2 or m[1] == [1] or m[1][0] != 0:
+            differ('split', dict(impl='learning %d / testing %d samples' % (len(ii['learn'][0]), len(ii['test'][0])), model='raises or rejects the order inputs',
+                                 split_in=str(r.get('split_in'))[:400]), upto=-1)
+            continue
+        _, mlearn, mtest, lo_ok = m[1]
+        for nm, a, b in (('learning data', ii['learn'], mlearn), ('testing data', ii['test'], mtest)):
+            st2, path = c18.cmp_obs(a, b)
+            if st2 == 2:
+                bad = (nm, path, str(a)[:400], str(b)[:400])
+                break
+        if bad:
+            differ('split', dict(observable=bad[0], path=bad[1], impl=bad[2], model=bad[3]), upto=-1)
             continue
         if r.get('learn_exc'):
             chk.count('learning-raises:' + r['learn_exc'][0])
-            if c['cfg']['learner'] == 'std' and not c['cfg']['one_vs_others']:
-                chk.violation('oracle:learning-raises', 'learning-raises', {'exc': r['learn_exc'][0], 'learner': c['cfg']['learner']}, dict(base, ops=[]),
+            if cfg['learner'] == 'std' and not cfg['one_vs_others'] and len(set(ii['learn'][1])) >= 2:
+                chk.violation('oracle:learning-raises', 'learning-raises', {'exc': r['learn_exc'][0], 'learner': cfg['learner']}, dict(base, ops=[]),
                               dict(why='perform_classification raised %r' % (r['learn_exc'],)))
             continue
-        if m[1] != r['calc0']:
-            differ('calc0', dict(impl=r['calc0'], model=m[1]), upto=-1)
+        if r.get('degenerate'):
+            chk.count('fewer-than-2-classes-learned')
+            continue
+        chk.count('classificator-owner=' + ('by-training-data' if r.get('owner') is not None else 'by-split_labels'))
+        if lo_ok != 1:
+            differ('label-order', dict(impl='get_labels() of the learning data = %r' % (r['lo_learn'],), model='not an enumeration of the labels of the learning data'), upto=-1)
+            continue
+        if m[2] != r['calc0']:
+            differ('calc0', dict(impl=r['calc0'][:60], model=m[2][:60], label_order=r['lo_learn']), upto=-1)
             continue
         # ---- later calls
         okc = True
-        for j, (ent, mo_) in enumerate(zip(r['ops'], m[2:])):
+        idxs = model_ops_index(c, r)
+        for j, mo_ in zip(idxs, m[3:]):
+            ent = r['ops'][j]
             if sx.is_err(mo_):
                 differ('op', dict(step=j, model=str(mo_)), upto=j); okc = False; break
             obs, mcalc = mo_
+            if ent.get('stop_model'):
+                chk.count('history-cut:call-crashed')
+                okc = False
+                break
             if ent.get('ambiguous'):
                 chk.count('ambiguous:threshold')
                 okc = False
                 break
             if mcalc != ent['calc']:
-                differ('bookkeeping', dict(step=j, op=ent['op'], impl=ent['calc'], model=mcalc), upto=j); okc = False; break
-            if ent['op'] == 'evaluate':
+                differ('bookkeeping', dict(step=j, op=ent['op'], impl=ent['calc'][:60], model=mcalc[:60]), upto=j); okc = False; break
+            if ent['op'] == 'evaluate' or (ent['op'] == 'continue' and ent.get('exc')):
                 if ent['exc']:
-                    if obs != [1]:
+                    if ent['op'] == 'evaluate' and obs != [1]:
                         differ('evaluate', dict(step=j, impl='raises %r' % (ent['exc'],), model=str(obs)), upto=j); okc = False; break
                 else:
                     if obs[0] != 0 or obs[1][:2] != ent['res'][:2] or not close_q(sx.rat(ent['res'][2]), sx.q(obs[1][2])):
                         differ('evaluate', dict(step=j, impl=ent['res'], model=str(obs)), upto=j); okc = False; break
+                continue
+            if ent['op'] == 'continue':
                 continue
             raised_m = obs[0] == 1
             if bool(ent['exc']) != raised_m:
@@ -493,42 +934,45 @@ def judge(chk, cases, impl, variant):
                 differ(ent['op'] + '/input-after', dict(step=j, path=path, impl=str(ent['after'])[:500], model=str(obs[1])[:500]), upto=j); okc = False; break
             if not raised_m:
                 if obs[2] != ent['res_classes']:
-                    differ(ent['op'] + '/classes', dict(step=j, impl=ent['res_classes'], model=obs[2], dens=str(ent.get('dens'))[:400]), upto=j); okc = False; break
+                    differ(ent['op'] + '/classes', dict(step=j, impl=ent['res_classes'][:60], model=obs[2][:60], dens=str(ent.get('dens'))[:400]), upto=j); okc = False; break
                 if ent['op'] == 'test' and (obs[3][:2] != ent['res'][:2] or not close_q(sx.rat(ent['res'][2]), sx.q(obs[3][2]))):
                     differ('test/summary', dict(step=j, impl=ent['res'], model=str(obs[3])), upto=j); okc = False; break
         nclassified = sum(len(e.get('res_classes') or []) for e in r['ops'])
         if nclassified >= 1 and len(c['X']) >= 8:
             keys.append((c['seed'], str(c['X'])[:200], str(c['ops'])[:400]))
         if len(samples) < 3 and nclassified >= 4 and c.get('kind') == 'random':
-            samples.append(dict(n=len(c['X']), labels=c['labels'], cfg=c['cfg'], data_range=c.get('data_range'),
-                                ops=[[o[0]] + ([len(o[1]), o[3]] if len(o) > 1 else []) for o in c['ops']],
-                                classes=[e.get('res_classes') for e in r['ops']], summaries=[e.get('res') for e in r['ops']]))
+            samples.append(dict(n=len(c['X']), dim=r['dim'], labels=c['labels'], label_order_of_learning_data=r['lo_learn'], cfg=cfg, data_range=c.get('data_range'),
+                                ops=[[o[0]] + ([len(o[1]) if isinstance(o[1], list) else 'same object as op %r' % o[1], o[3]] if o[0] in ('call', 'test') else o[1:]) for o in c['ops']],
+                                classes=[(e.get('res_classes') or [])[:12] for e in r['ops']], summaries=[e.get('res') for e in r['ops']]))
     chk.record_cases(len(cases), keys,
-                     'real learning runs on random 2-d lattice data (2..4 classes, 8..60 samples, unlabelled samples, labels 0..k-1 or not, '
-                     'split 0.5..1.0 even/uneven, shuffle on/off, standard/dimension-wise/one-vs-others learners, optional user data range) followed by '
-                     '1..6 __call__/test_data/evaluate calls with data inside/partly/entirely outside/on the edge/unlabelled/empty/pre-scaled; '
+                     'real learning runs on random 1/2/3-d lattice data (2..4 classes, 8..60 samples plus a few cases with 250..420 samples and calls with up to 1500 points; '
+                     'unlabelled samples; label values contiguous / non-contiguous / with non-ascending CPython set order / large; split 0.25..1.0 (float, int, out of range) '
+                     'even/uneven, shuffle on/off, standard/dimension-wise/one-vs-others learners with their options, optional user data range) followed by '
+                     'histories of __call__/test_data/evaluate/continue_dimension_wise_refinement calls with data inside/partly/entirely outside/on the edge/unlabelled/empty/pre-scaled, '
+                     're-used DataSet objects and a second classifier in the same process; '
                      'non-trivial = at least one sample classified by a later call and >= 8 learning samples; distinct by (seed, data, calls)', samples)
 
 
 def replay(chk, rep):
     c = rep['case']
-    st, r = run_impl(impl_run, [c], limit=300)[0]
+    st, r = run_impl(impl_run, [c], limit=600)[0]
     print('impl status:', st)
     if st != 'ok':
         print(r)
         return 1
     bad = 0
     print('init:', {k: (str(v)[:200]) for k, v in r['init'].items()})
+    print('label order of the learning data (get_labels()):', r.get('lo_learn'), ' classificators trained on classes:', r.get('label_of_classificator'))
     for v in r['viol']:
         bad += 1
         print('   PROPERTY PREDICATE FAILS (learning):', v['kind'], v['sig'], v['why'])
     for j, ent in enumerate(r['ops']):
-        print('call', j, ent['op'], 'raised %r' % (ent['exc'],) if ent.get('exc') else 'ok', 'classes', ent.get('res_classes'), 'summary', ent.get('res'),
-              'calculated classes now', ent.get('calc'))
+        print('call', j, ent['op'], 'raised %r' % (ent['exc'],) if ent.get('exc') else 'ok', 'classes', (ent.get('res_classes') or [])[:40], 'summary', ent.get('res'),
+              'calculated classes now', (ent.get('calc') or [])[:40])
         for v in ent['viol']:
             bad += 1
             print('   PROPERTY PREDICATE FAILS:', v['kind'], v['sig'], v['why'])
-    m = run_model(19, [(0, model_case(c, r, c18.get_variant() + get_cvariant()))])[0]
+    m = run_model(19, [(2, model_case(c, r, c18.get_variant() + get_cvariant()))])[0]
     print('model:', str(m)[:3000])
     print('property predicate:', 'violated' if bad else 'holds')
     return 1 if bad else 0
